@@ -38,7 +38,7 @@ import tskit
 from lib import gen
 from lib.harness import case_rng
 from lib.model import NULL, forest, mutation_parents
-from lib.props.c03 import GenoRef, attempt, exc_name, model_features
+from lib.props.c03 import GenoRef, attempt, build_msprime, exc_name, model_features
 from lib.tsk import to_ts
 
 ID = "C16"
@@ -47,7 +47,7 @@ ID = "C16"
 def cases(tier, seed):
     n = 60000 if tier == "quick" else 6000000
     for k in range(n):
-        yield {"gen": "walk", "k": k}
+        yield {"gen": ("msprime" if k % 40 == 7 else "walk"), "k": k}
 
 
 # ------------------------------------------------------------------------------------ generator
@@ -142,6 +142,9 @@ def nastify(rng, m, masked, kinds):
 
 def build(case):
     rng = case_rng(case)
+    if case["gen"] == "msprime":
+        # diploid/haploid individuals as simulators write them, finite-sites mutations
+        return rng, build_msprime(rng), "all"
     discrete = rng.random() < 0.5
     sm = rng.choice(["young", "young", "young", "all", "any", "any", "few", "none"])
     if sm == "none" and rng.random() < 0.6:
